@@ -86,8 +86,10 @@ func c11Configs(tier string) []c11Config {
 					// executable (duplicate symbols by construction): not a buildable configuration
 					continue
 				}
-				if tier == "quick" && !(o == 1 || (!sm && !sl)) {
-					continue // quick: O0/O2 in the default link mode, all 4 link modes at O1
+				if tier == "quick" && !(o == 1 || (!sm && !sl) || (o == 0 && sm)) {
+					// quick: O0/O2 in the default link mode, all link modes at O1, and O0 with separately
+					// compiled modules — the one configuration that runs no LLVM pass at all
+					continue
 				}
 				out = append(out, c11Config{o, sm, sl})
 			}
@@ -178,7 +180,7 @@ type c11Obs struct {
 
 func runC11(tier string) int {
 	c := ev.New("C11", tier)
-	c.Budget(map[string]int{"quick": 480, "thorough": 3300}[tier])
+	c.Budget(map[string]int{"quick": 600, "thorough": 3300}[tier])
 	corpus := c11Corpus(tier)
 	cfgs := c11Configs(tier)
 	var mu sync.Mutex
